@@ -15,7 +15,8 @@ pub static DEF: PropDef = PropDef {
     rule: "Call histories of 200..1200 calls over a pool of 8..24 generated operations: message decode under any options (G-wire inputs, accepted control messages with several AVPs always among them), bare \
 AVP-list decode, message / AVP encode, hide, reveal, and rendering of the returned errors; half of the pools contain the same hidden value revealed (and the same AVP hidden) under related secrets, a third a control message with 65..104 undecodable records. (silence) while the history runs, file descriptors 1 and 2 of the process are redirected to a memory file (in a third of the histories to a pseudo-terminal): any octet \
 captured is a violation, and the offending call is isolated by re-running the distinct operations one at a time. (history independence) every call in a random order with repetitions returns the result \
-it returned in the canonical first pass. (threads) 8 threads run different orders concurrently and every result equals the single-threaded one. Non-trivial = the history contains an accepted control message \
+it returned in the canonical first pass. (threads) 8 threads run different orders concurrently and every result equals the single-threaded one. (caller contexts) in a quarter of the histories every operation is also called from a destructor \
+while the thread unwinds and from thread-local destructors at the exit of a fresh thread: same results. Non-trivial = the history contains an accepted control message \
 with at least one AVP and at least 2 distinct kinds of call; distinct by hash of the pool.",
     assumptions: &[
         "thread schedules are whatever the OS produces; the harness does not own the schedule (the crate uses no synchronisation primitive and no shared mutable state that a controlled scheduler could intercept)",
@@ -188,6 +189,7 @@ fn check(t: &mut Tape, cx: &mut Cx) -> Res {
     cx.eval();
     // decisions first, so that a short tape still reaches every mode; the call order is a pure function of a tape-drawn seed
     let threaded = t.chance(50);
+    let contexts = t.chance(25);
     let calls = 200 + t.below(1001);
     let mut seed = t.u64() | 1;
     let mut next = move |n: usize| -> usize {
@@ -221,6 +223,33 @@ fn check(t: &mut Tape, cx: &mut Cx) -> Res {
             mismatch = Some((pos, i, r));
         }
     }
+    // (caller contexts) in a quarter of the histories every operation of the pool is also called from a destructor while the
+    // thread unwinds, and from thread-local destructors at the exit of a fresh thread (before and after that thread's own calls)
+    let mut ctx_mismatch: Option<(&'static str, usize, String)> = None;
+    if contexts {
+        for (i, o) in pool.iter().enumerate() {
+            let r = match crate::props::history::while_unwinding(|| o.run()) {
+                Caught::Ok(s) => s,
+                _ => "panic".to_string(),
+            };
+            if r != canonical[i] && ctx_mismatch.is_none() {
+                ctx_mismatch = Some(("from a destructor while the calling thread unwinds", i, r));
+            }
+        }
+        let p = Arc::new(pool.clone());
+        let f: Arc<dyn Fn() -> Vec<String> + Send + Sync> = Arc::new(move || p.iter().map(|o| o.run()).collect());
+        if let Some(rs) = crate::props::history::at_thread_exit(f) {
+            for (k, r) in rs.into_iter().enumerate() {
+                for (i, x) in r.into_iter().enumerate() {
+                    if x != canonical[i] && ctx_mismatch.is_none() {
+                        ctx_mismatch = Some((["on a fresh thread", "from a thread-local destructor at thread exit (registered before the thread's own calls)", "from a thread-local destructor at thread exit (registered after the thread's own calls)"][k], i, x));
+                    }
+                }
+            }
+            cx.class("pool also run while unwinding and from thread-local destructors at thread exit");
+            cx.evals_n(4);
+        }
+    }
     let out = cap.finish();
     if !out.is_empty() {
         // isolate the offending call
@@ -248,6 +277,12 @@ fn check(t: &mut Tape, cx: &mut Cx) -> Res {
         return fail(
             format!("call #{} of the history ({}) returned a different result than in the canonical pass", pos, pool[i].describe()),
             render(json!({"canonical": canonical[i].chars().take(400).collect::<String>(), "in_history": r.chars().take(400).collect::<String>()})),
+        );
+    }
+    if let Some((how, i, r)) = ctx_mismatch {
+        return fail(
+            format!("called {}, {} returned a different result than in the canonical pass", how, pool[i].describe()),
+            render(json!({"canonical": canonical[i].chars().take(400).collect::<String>(), "in_context": r.chars().take(400).collect::<String>()})),
         );
     }
     // (threads)
